@@ -13,7 +13,7 @@ META = {
                   'the k-th granted ticket, once, after it was sent, with the payload its claimer wrote; at most depth buffers are outstanding; a claim returns NULL only at a step at which it read the counter as 0, i.e. outstanding buffers + permits of claims in progress = depth; '
                   'with no claim in progress num_free = depth - outstanding; the counter never wraps. Proved for the model with the C arithmetic of the current code (compare-exchange loop on the atomic_uchar counter, fix 6099fe4). '
                   'Both earlier claim protocols are proved to violate exclusive ownership (claim_wrap_counterexample: unsigned fetch_sub, D2; claim_wrap_129_counterexample: signed fetch_sub with 129 nested failing claims, D12).',
-    'level_note': 'Trusted: Lean kernel (standard axioms only); the hand model is validated every run against the real messageq.c: its access skeleton equals the one extracted from clang\'s AST (kinds, objects, memory orders, branch context, field atomicity), '
+    'level_note': 'Tie T2 (DESIGN 12): the sequential meaning of every messageq.c function is regenerated from the source each run and proved equal to Model.Messageq, whose arithmetic this interleaving model reuses (Props/C10Tie.lean: bv_decide certificates for the *_generated theorems only). Trusted: Lean kernel (standard axioms only); the hand model is validated every run against the real messageq.c: its access skeleton equals the one extracted from clang\'s AST (kinds, objects, memory orders, branch context, field atomicity), '
                   'and identical per-operation logs (thread, op, field, order, before, after, returns) on sampled schedules '
                   '(random preemption, nested interrupt style, deliberately full queues with several claims in flight, long sequential runs, deep synchronous nesting of > 128 claim contexts, and exhaustively all schedules of two single-message senders on depth 1-2 plus a preemption sweep in the thorough tier), plus an independent '
                   'ownership monitor in the harness. Sequential consistency is assumed for the interleaving semantics (all accesses are seq_cst atomics or provably exclusive plain accesses; DRF-SC, see C07); '
